@@ -206,7 +206,31 @@ theorem ownedMsg_split (S : Schema) (ty id : Nat) (slots : List HSlot) (tbl : Op
   simp only [ownedMsg, hsetSlot, hAB s', append_assoc]
   exact perm_mid A _ _
 
-/-! ### one member (messages without embedded messages) -/
+/-! ### one member -/
+
+/-- the statement of the whole-call theorem at one recursion depth -/
+def UnpackAcct (S : Schema) (σ : Nat → Bool) (fuel : Nat) : Prop :=
+  ∀ (t : Nat) (b : Bytes) (h : Heap) (L : List Nat), Acct h L →
+    match unpackMsgH S σ fuel t b h with
+    | (none, h') => Acct h' L
+    | (some m, h') => Acct h' (ownedMsg S m ++ L)
+
+/-- what the proof for depth `fuel` may assume about embedded messages -/
+def RecOk (S : Schema) (σ : Nat → Bool) (fuel : Nat) : Prop := ∀ fuel', fuel = fuel' + 1 → UnpackAcct S σ fuel'
+
+/-- an element of a repeated message field: `parse_required_member` on a zeroed slot -/
+theorem parseRequiredH_msg_elem (S : Schema) (σ : Nat → Bool) (fuel' : Nat) (f : FieldDesc) (sm : Scanned) (h : Heap)
+    (hw : (!wtOk f.type sm.wt) = false) (hft : f.type = .message) :
+    parseRequiredH S σ (fuel' + 1) f sm .zero false h =
+      (match unpackMsgH S σ fuel' f.sub (sm.data.drop sm.prefLen) h with
+       | (none, h1) => (false, .msg none, h1)
+       | (some m, h1) => (true, .msg (some m), h1)) := by
+  unfold parseRequiredH
+  have hw2 := hw
+  rw [hft] at hw2
+  simp only [hft, hw2, Bool.false_eq_true, if_false]
+  cases unpackMsgH S σ fuel' f.sub (sm.data.drop sm.prefLen) h with
+  | mk sub h1 => cases sub <;> rfl
 
 /-- how a value may own memory, given its field's type: exactly what `parse_required_member` releases when it
     overwrites the member -/
@@ -366,9 +390,42 @@ theorem parseRequiredH_fail_owned (S : Schema) (σ : Nat → Bool) (fuel : Nat) 
       rw [hft] at hw2
       simp [hft, hw2] at hfail
 
-/-- the schemas of this part: no embedded messages; oneof members are singular; field numbers distinct and in range -/
+/-- an element of a repeated field (any type, embedded messages through the induction hypothesis): what the new element owns
+    is exactly what was handed out; a failed element owns nothing -/
+theorem parseRequiredH_elem_acct (S : Schema) (σ : Nat → Bool) (fuel : Nat) (f : FieldDesc) (sm : Scanned)
+    (hrec : RecOk S σ fuel) {h : Heap} {R : List Nat} (a : Acct h R) :
+    Acct (parseRequiredH S σ fuel f sm .zero false h).2.2 (ownedVal S (parseRequiredH S σ fuel f sm .zero false h).2.1 ++ R) ∧
+    ((parseRequiredH S σ fuel f sm .zero false h).1 = false →
+      ownedVal S (parseRequiredH S σ fuel f sm .zero false h).2.1 = []) := by
+  by_cases hft : f.type = .message
+  · by_cases hw : (!wtOk f.type sm.wt) = true
+    · have : parseRequiredH S σ fuel f sm .zero false h = (false, .zero, h) := by unfold parseRequiredH; simp [hw]
+      rw [this]; exact ⟨by simpa [ownedVal] using a, fun _ => rfl⟩
+    · have hw' : (!wtOk f.type sm.wt) = false := by simpa using hw
+      cases fuel with
+      | zero =>
+        have : parseRequiredH S σ 0 f sm .zero false h = (false, .zero, h) := by
+          unfold parseRequiredH
+          have hw2 := hw'
+          rw [hft] at hw2
+          simp only [hft, hw2, Bool.false_eq_true, if_false]
+        rw [this]; exact ⟨by simpa [ownedVal] using a, fun _ => rfl⟩
+      | succ fuel' =>
+        rw [parseRequiredH_msg_elem S σ fuel' f sm h hw' hft]
+        have ih := hrec fuel' rfl f.sub (sm.data.drop sm.prefLen) h R a
+        cases hu : unpackMsgH S σ fuel' f.sub (sm.data.drop sm.prefLen) h with
+        | mk sub h1 =>
+          rw [hu] at ih
+          cases sub with
+          | none => exact ⟨by simpa [ownedVal] using ih, fun _ => rfl⟩
+          | some m => exact ⟨by simpa [ownedVal] using ih, fun hf => by simp at hf⟩
+  · exact ⟨(parseRequiredH_acct S σ fuel f sm .zero false hft (Or.inl rfl) (fun _ => rfl) (by simpa [ownedVal] using a)).1,
+      fun hf => parseRequiredH_fail_owned S σ fuel f sm .zero false h hft rfl hf⟩
+
+/-- the message types of this part: embedded messages only as repeated fields (so `merge_messages` is never reached);
+    oneof members are singular; field numbers distinct and in range -/
 structure FlatS (fields : List FieldDesc) : Prop where
-  nomsg : ∀ f ∈ fields, f.type ≠ .message
+  msgrep : ∀ f ∈ fields, f.type = .message → f.label = .repeated
   oneof : ∀ f ∈ fields, f.group.isSome = true → f.label ≠ .repeated ∧ f.label ≠ .required
   ids : ∀ f ∈ fields, 0 < f.id ∧ f.id < 2 ^ 31
   distinct : Pbc.Props.C01.IdsDistinct fields
@@ -468,7 +525,7 @@ theorem singular_step (S : Schema) (σ : Nat → Bool) (fuel ty : Nat) (hfl : Fl
     ArrMono slots (hsetSlot slots i (.one q2
         (parseRequiredH S σ fuel ((S.msg ty).fields.getD i default) sm (hgetSlot slots i).v true h).2.1)) := by
   have hfi := getD_mem' _ i hi
-  have hnm := hfl.nomsg _ hfi
+  have hnm : ((S.msg ty).fields.getD i default).type ≠ .message := fun e => hl (hfl.msgrep _ hfi e)
   have hno : ((S.msg ty).fields.getD i default).isOneof = false := by unfold FieldDesc.isOneof; rw [hng]; rfl
   have hil : i < slots.length := by rw [hok.1]; exact hi
   obtain ⟨X, hX⟩ := ownedMsg_split S ty id slots tbl unk i hi hil
@@ -877,7 +934,8 @@ theorem oneofH_acct (S : Schema) (σ : Nat → Bool) (fuel ty : Nat) (hfl : Flat
       SlotsOk S (S.msg ty).fields slots2 ∧ GroupOk (S.msg ty).fields cs2 slots2 ∧
       Acct (oneofH S σ fuel (S.msg ty).fields ((S.msg ty).fields.getD i default) g sm i ty id slots tbl unk h).2.2
         (ownedMsg S (.mk ty id slots2 tbl unk) ++ R) ∧ ArrMono slots slots2 := by
-  have hnm := hfl.nomsg _ (getD_mem' _ i hi)
+  have hnm : ((S.msg ty).fields.getD i default).type ≠ .message := fun e =>
+    (hfl.oneof _ (getD_mem' _ i hi) (by rw [hgrp]; rfl)).1 (hfl.msgrep _ (getD_mem' _ i hi) e)
   have hq : (hgetSlot slots i).q = cs g := hgk.grp i g hi hgrp
   have hnm' : (((S.msg ty).fields.getD i default).type == PType.message) = false := by
     cases ht : ((S.msg ty).fields.getD i default).type <;> first | rfl | exact absurd ht hnm
@@ -954,7 +1012,8 @@ theorem oneofH_acct (S : Schema) (σ : Nat → Bool) (fuel ty : Nat) (hfl : Flat
 
 /-- **one member** (flat schemas): whatever `parse_member` does — succeed, fail on a refused allocation, fail on a wrong
     wire type — the blocks outstanding are exactly those the message (as the C code leaves it) owns, plus the rest -/
-theorem parseMemberH_plain (S : Schema) (σ : Nat → Bool) (fuel ty : Nat) (hfl : FlatS (S.msg ty).fields) (sm : Scanned)
+theorem parseMemberH_plain (S : Schema) (σ : Nat → Bool) (fuel ty : Nat) (hfl : FlatS (S.msg ty).fields)
+    (hrec : RecOk S σ fuel) (sm : Scanned)
     (hsm : ∀ i, sm.fidx = some i → i < (S.msg ty).fields.length)
     (hpl : ∀ i, sm.fidx = some i → ((S.msg ty).fields.getD i default).group = none)
     (id : Nat) (slots : List HSlot) (tbl : Option Nat) (unk : List (Unk × Option Nat))
@@ -990,7 +1049,6 @@ theorem parseMemberH_plain (S : Schema) (σ : Nat → Bool) (fuel ty : Nat) (hfl
   | some i =>
     have hi := hsm i hf
     have hfi := getD_mem' _ i hi
-    have hnm := hfl.nomsg _ hfi
     have hng := hpl i hf
     have hil : i < slots.length := by rw [hok.1]; exact hi
     obtain ⟨X, hX⟩ := ownedMsg_split S ty id slots tbl unk i hi hil
@@ -1073,8 +1131,7 @@ theorem parseMemberH_plain (S : Schema) (σ : Nat → Bool) (fuel ty : Nat) (hfl
           obtain ⟨_, harr2⟩ := hsome
           subst harr2
           obtain ⟨aid, l⟩ := p'
-          have a0 : Acct h (ownedVal S HVal.zero ++ (ownedMsg S (.mk ty id slots tbl unk) ++ R)) := by simpa [ownedVal] using a
-          obtain ⟨a2, _⟩ := parseRequiredH_acct S σ fuel _ sm .zero false hnm (Or.inl rfl) (fun _ => rfl) a0
+          obtain ⟨a2, hfo⟩ := parseRequiredH_elem_acct S σ fuel ((S.msg ty).fields.getD i default) sm hrec a
           split
           · have := grow (some (aid, l ++ [(parseRequiredH S σ fuel ((S.msg ty).fields.getD i default) sm HVal.zero false h).2.1]))
               (n + 1) (ownedVal S (parseRequiredH S σ fuel ((S.msg ty).fields.getD i default) sm HVal.zero false h).2.1)
@@ -1085,7 +1142,7 @@ theorem parseMemberH_plain (S : Schema) (σ : Nat → Bool) (fuel ty : Nat) (hfl
           · -- the element that failed to parse owns nothing (a refused allocation leaves a NULL pointer)
             rename_i hfail
             have hv0 : ownedVal S (parseRequiredH S σ fuel ((S.msg ty).fields.getD i default) sm HVal.zero false h).2.1 = [] :=
-              parseRequiredH_fail_owned S σ fuel _ sm .zero false h hnm rfl (by simpa using hfail)
+              hfo (by simpa using hfail)
             rw [hv0] at a2
             exact ⟨slots, unk, rfl, hok, by simpa using a2, arrMono_refl _, Or.inl rfl⟩
 
@@ -1098,7 +1155,8 @@ theorem groupOk_set_plain (fields : List FieldDesc) (cs : Nat → Nat) (slots : 
 
 /-- **one member**: whatever `parse_member` does — succeed, fail on a refused allocation, fail on a wrong wire type — the
     blocks outstanding are exactly those the message (as the C code leaves it) owns, plus the rest -/
-theorem parseMemberH_acct (S : Schema) (σ : Nat → Bool) (fuel ty : Nat) (hfl : FlatS (S.msg ty).fields) (sm : Scanned)
+theorem parseMemberH_acct (S : Schema) (σ : Nat → Bool) (fuel ty : Nat) (hfl : FlatS (S.msg ty).fields)
+    (hrec : RecOk S σ fuel) (sm : Scanned)
     (hsm : ∀ i, sm.fidx = some i → i < (S.msg ty).fields.length)
     (hsm2 : ∀ i, sm.fidx = some i → ((S.msg ty).fields.getD i default).id = sm.tag)
     (id : Nat) (slots : List HSlot) (tbl : Option Nat) (unk : List (Unk × Option Nat)) (cs : Nat → Nat)
@@ -1123,14 +1181,14 @@ theorem parseMemberH_acct (S : Schema) (σ : Nat → Bool) (fuel ty : Nat) (hfl 
       cases hg : ((S.msg ty).fields.getD i default).group with
       | none => rfl
       | some g => exact absurd ⟨i, g, hf, hg⟩ hgr
-    obtain ⟨s2, u2, h1, h2, h3, h4, h5⟩ := parseMemberH_plain S σ fuel ty hfl sm hsm hpl id slots tbl unk hok harr a
+    obtain ⟨s2, u2, h1, h2, h3, h4, h5⟩ := parseMemberH_plain S σ fuel ty hfl hrec sm hsm hpl id slots tbl unk hok harr a
     refine ⟨s2, u2, cs, h1, h2, ?_, h3, h4⟩
     rcases h5 with rfl | ⟨i, sx, hf, rfl⟩
     · exact hgk
     · exact groupOk_set_plain _ cs slots hgk i (hpl i hf) sx
 
 /-- **the parse pass** -/
-theorem parseAllH_acct (S : Schema) (σ : Nat → Bool) (fuel ty : Nat) (hfl : FlatS (S.msg ty).fields) :
+theorem parseAllH_acct (S : Schema) (σ : Nat → Bool) (fuel ty : Nat) (hfl : FlatS (S.msg ty).fields) (hrec : RecOk S σ fuel) :
     ∀ (l : List Scanned), (∀ sm ∈ l, ∀ i, sm.fidx = some i → i < (S.msg ty).fields.length ∧ ((S.msg ty).fields.getD i default).id = sm.tag) →
     ∀ (id : Nat) (slots : List HSlot) (tbl : Option Nat) (unk : List (Unk × Option Nat)) (cs : Nat → Nat) (h : Heap) (R : List Nat),
     SlotsOk S (S.msg ty).fields slots → GroupOk (S.msg ty).fields cs slots →
@@ -1143,7 +1201,7 @@ theorem parseAllH_acct (S : Schema) (σ : Nat → Bool) (fuel ty : Nat) (hfl : F
     simp only [parseAllH]
     exact ⟨slots, unk, rfl, a⟩
   | sm :: rest, hall, id, slots, tbl, unk, cs, h, R, hok, hgk, harr, a => by
-    obtain ⟨s2, u2, cs2, he, hok2, hgk2, a2, hmono⟩ := parseMemberH_acct S σ fuel ty hfl sm
+    obtain ⟨s2, u2, cs2, he, hok2, hgk2, a2, hmono⟩ := parseMemberH_acct S σ fuel ty hfl hrec sm
       (fun i hi => (hall sm (mem_cons_self ..) i hi).1) (fun i hi => (hall sm (mem_cons_self ..) i hi).2)
       id slots tbl unk cs hok hgk (harr sm (mem_cons_self ..)) a
     simp only [parseAllH]
@@ -1154,7 +1212,7 @@ theorem parseAllH_acct (S : Schema) (σ : Nat → Bool) (fuel ty : Nat) (hfl : F
     cases ok with
     | false => exact ⟨s2, u2, rfl, a2⟩
     | true =>
-      exact parseAllH_acct S σ fuel ty hfl rest (fun x hx => hall x (mem_cons_of_mem _ hx)) id s2 tbl u2 cs2 h' R hok2 hgk2
+      exact parseAllH_acct S σ fuel ty hfl hrec rest (fun x hx => hall x (mem_cons_of_mem _ hx)) id s2 tbl u2 cs2 h' R hok2 hgk2
         (fun x hx i h1 h2 h3 => hmono i (harr x (mem_cons_of_mem _ hx) i h1 h2 h3)) a2
 
 /-! ### the scan pass: slabs -/
@@ -1499,7 +1557,8 @@ theorem unpackMsgH_eq (S : Schema) (σ : Nat → Bool) (fuel t : Nat) (b : Bytes
   unfold unpackMsgH unpackMsgH2 tailH tailH2 bmAlloc tblAlloc freeBmF
   rfl
 
-theorem tailH2_acct (S : Schema) (σ : Nat → Bool) (fuel t rv : Nat) (hfl : FlatS (S.msg t).fields) (bm : Option Nat)
+theorem tailH2_acct (S : Schema) (σ : Nat → Bool) (fuel t rv : Nat) (hfl : FlatS (S.msg t).fields) (hrec : RecOk S σ fuel)
+    (bm : Option Nat)
     (slabs : List Nat) (st : ScanState)
     (hst : ∀ sm ∈ st.acc, ∀ i, sm.fidx = some i → i < (S.msg t).fields.length ∧ ((S.msg t).fields.getD i default).id = sm.tag)
     (firstBad : Option Nat) (okA : Bool) (slots1 : List HSlot) (h4 : Heap) (L : List Nat)
@@ -1548,7 +1607,7 @@ theorem tailH2_acct (S : Schema) (σ : Nat → Bool) (fuel t rv : Nat) (hfl : Fl
           simp only [ownedMsg, filterMap_nil, append_nil, append_assoc, Option.toList_none, nil_append]
           -- tbl ++ (O ++ ([rv] ++ X))  ~  O ++ (tbl ++ ([rv] ++ X))
           exact perm_mid tbl.toList _ _
-        obtain ⟨s2, u2, he, a6⟩ := parseAllH_acct S σ fuel t hfl st.acc.reverse
+        obtain ⟨s2, u2, he, a6⟩ := parseAllH_acct S σ fuel t hfl hrec st.acc.reverse
           (fun sm hsm => hst sm (by simpa using hsm)) rv slots1 tbl [] (fun _ => 0) h5 _ hok1 (hgk1 (by simpa using hA))
           (fun sm hsm => harr1 (by simpa using hA) (by simpa using hB) sm (by simpa using hsm)) hu
         generalize hp : parseAllH S σ fuel (S.msg t).fields st.acc.reverse (.mk t rv slots1 tbl []) h5 = pr at he a6
@@ -1757,8 +1816,8 @@ theorem scanLoopH_cnt (σ : Nat → Bool) (fields : List FieldDesc) :
     allocator, after `protobuf_c_message_unpack` returns NULL exactly the blocks that were outstanding before are
     outstanding; after it returns a message, additionally exactly the blocks that message owns — no leak, no double free,
     no free of a block that was never handed out (`liveAfter` would be `none`) -/
-theorem unpackMsgH_acct (S : Schema) (σ : Nat → Bool) (fuel t : Nat) (hfl : FlatS (S.msg t).fields)
-    (hd : Pbc.Props.C01.IdsDistinct (S.msg t).fields) (b : Bytes) (h : Heap) (L : List Nat) (a : Acct h L) :
+theorem unpackMsgH_acct_step (S : Schema) (σ : Nat → Bool) (fuel t : Nat) (hfl : FlatS (S.msg t).fields)
+    (hrec : RecOk S σ fuel) (b : Bytes) (h : Heap) (L : List Nat) (a : Acct h L) :
     match unpackMsgH S σ fuel t b h with
     | (none, h') => Acct h' L
     | (some m, h') => Acct h' (ownedMsg S m ++ L) := by
@@ -1785,7 +1844,7 @@ theorem unpackMsgH_acct (S : Schema) (σ : Nat → Bool) (fuel t : Nat) (hfl : F
         simp only at a2 ⊢
         have a3 := scanLoopH_acct σ (S.msg t).fields b.length b
           ⟨if (S.msg t).fields.isEmpty then none else some 0, 0, [], [], [], 0⟩ [] h2 (bm.toList ++ (rv :: L)) (by simpa using a2)
-        have hacc := scanLoopH_accok σ (S.msg t).fields hd b.length b
+        have hacc := scanLoopH_accok σ (S.msg t).fields hfl.distinct b.length b
           ⟨if (S.msg t).fields.isEmpty then none else some 0, 0, [], [], [], 0⟩ [] h2
         generalize hsc : scanLoopH σ (S.msg t).fields b.length b
           ⟨if (S.msg t).fields.isEmpty then none else some 0, 0, [], [], [], 0⟩ [] h2 = sc at a3 hacc
@@ -1814,7 +1873,7 @@ theorem unpackMsgH_acct (S : Schema) (σ : Nat → Bool) (fuel t : Nat) (hfl : F
           have hal2 := allocArrays_acct S σ (S.msg t).fields
             (st.counts.filter (fun c => c.1 < firstBad.getD (S.msg t).fields.length))
             0 (S.msg t).fields ((initMsg S t).slots.map liftSlot) h3 _ (init_all2 S t) a3
-          refine tailH2_acct S σ fuel t rv hfl bm slabs st (fun sm hsm i hi => (hok.2 sm hsm).fsome i hi) _ _ _ _ L hal2.1 ?_ ?_ hal2.2
+          refine tailH2_acct S σ fuel t rv hfl hrec bm slabs st (fun sm hsm i hi => (hok.2 sm hsm).fsome i hi) _ _ _ _ L hal2.1 ?_ ?_ hal2.2
           · -- the case words of the freshly initialised message are all 0
             intro hokA
             refine ⟨fun j g hj hg => ?_, fun _ => Or.inl rfl⟩
@@ -1840,28 +1899,39 @@ theorem unpackMsgH_acct (S : Schema) (σ : Nat → Bool) (fuel t : Nat) (hfl : F
           obtain ⟨p, hp⟩ := allocArrays_some S σ (S.msg t).fields _ 0 (S.msg t).fields _ h3 (init_all2 S t) hokA i hilt hlab hmem
           exact ⟨0, p, hp⟩
 
+/-- the schemas of this part: every message type is `FlatS` -/
+def FlatSchema (S : Schema) : Prop := ∀ t, FlatS (S.msg t).fields
+
+/-- **the whole call, at every nesting depth**: by induction on the recursion bound, the step above supplying each level -/
+theorem unpackMsgH_acct (S : Schema) (σ : Nat → Bool) (hS : FlatSchema S) : ∀ fuel, UnpackAcct S σ fuel
+  | 0 => fun t b h L a => unpackMsgH_acct_step S σ 0 t (hS t) (fun _ e => by cases e) b h L a
+  | fuel + 1 => fun t b h L a =>
+    unpackMsgH_acct_step S σ (fuel + 1) t (hS t) (fun fuel' e => by
+      have : fuel' = fuel := by omega
+      subst this
+      exact unpackMsgH_acct S σ hS fuel') b h L a
+
 /-- top level, failure: nothing outstanding -/
-theorem unpack_fails_clean (S : Schema) (σ : Nat → Bool) (t : Nat) (hfl : FlatS (S.msg t).fields)
-    (hd : Pbc.Props.C01.IdsDistinct (S.msg t).fields) (b : Bytes) (h' : Heap)
+theorem unpack_fails_clean (S : Schema) (σ : Nat → Bool) (t : Nat) (hS : FlatSchema S) (b : Bytes) (h' : Heap)
     (hr : unpackH S σ t b = (none, h')) : Balanced h'.log := by
-  have := unpackMsgH_acct S σ (b.length + 1) t hfl hd b {} [] acct_empty
+  have := unpackMsgH_acct S σ hS (b.length + 1) t b {} [] acct_empty
   unfold unpackH at hr
   rw [hr] at this
   exact balanced_of_acct this
 
 /-- top level, success then `free_unpacked`: nothing outstanding; and before the free exactly the message's blocks are -/
-theorem unpack_then_free_clean (S : Schema) (σ : Nat → Bool) (t : Nat) (hfl : FlatS (S.msg t).fields)
-    (hd : Pbc.Props.C01.IdsDistinct (S.msg t).fields) (b : Bytes) (m : HMsg) (h' : Heap)
+theorem unpack_then_free_clean (S : Schema) (σ : Nat → Bool) (t : Nat) (hS : FlatSchema S) (b : Bytes) (m : HMsg) (h' : Heap)
     (hr : unpackH S σ t b = (some m, h')) :
     Acct h' (ownedMsg S m) ∧ Balanced (freeMsg S m h').log := by
-  have := unpackMsgH_acct S σ (b.length + 1) t hfl hd b {} [] acct_empty
+  have := unpackMsgH_acct S σ hS (b.length + 1) t b {} [] acct_empty
   unfold unpackH at hr
   rw [hr] at this
   simp only [append_nil] at this
   exact ⟨this, balanced_of_acct (acct_freeMsg S m (by simpa using this))⟩
 
-/-! non-vacuity: a message with a oneof (string, bytes, uint32), a required string, an optional bytes with default, a
-    repeated packed int32, an implicit double and an optional int32 meets the hypotheses -/
+/-! non-vacuity: a schema of two message types — F with a oneof (string, bytes, uint32), a required string, an optional
+    bytes with default, a repeated packed int32, an implicit double and an optional int32; T (recursive) with a repeated F,
+    a repeated T and a repeated string — meets the hypotheses -/
 def exFlat : Schema := [{ name := "F", initGeneric := false, nGroups := 1, fields := [
   { name := "o1", id := 5, label := .optional, type := .string, packed := false, group := some 0, sub := 0, dflt := .none, init := none },
   { name := "o2", id := 6, label := .optional, type := .bytes, packed := false, group := some 0, sub := 0, dflt := .none, init := none },
@@ -1870,9 +1940,20 @@ def exFlat : Schema := [{ name := "F", initGeneric := false, nGroups := 1, field
   { name := "b", id := 2, label := .optional, type := .bytes, packed := false, group := none, sub := 0, dflt := .bin [1, 0], init := none },
   { name := "r", id := 3, label := .repeated, type := .int32, packed := true, group := none, sub := 0, dflt := .none, init := none },
   { name := "d", id := 4, label := .none, type := .double, packed := false, group := none, sub := 0, dflt := .none, init := none },
-  { name := "x", id := 9, label := .optional, type := .int32, packed := false, group := none, sub := 0, dflt := .scalar 7, init := some 7 }] }]
+  { name := "x", id := 9, label := .optional, type := .int32, packed := false, group := none, sub := 0, dflt := .scalar 7, init := some 7 }] },
+  { name := "T", initGeneric := false, nGroups := 0, fields := [
+  { name := "fs", id := 1, label := .repeated, type := .message, packed := false, group := none, sub := 0, dflt := .none, init := none },
+  { name := "ts", id := 2, label := .repeated, type := .message, packed := false, group := none, sub := 1, dflt := .none, init := none },
+  { name := "ss", id := 3, label := .repeated, type := .string, packed := false, group := none, sub := 0, dflt := .none, init := none }] }]
 
-example : FlatS (exFlat.msg 0).fields ∧ Pbc.Props.C01.IdsDistinct (exFlat.msg 0).fields :=
-  ⟨⟨by decide, by decide, by decide, by unfold Pbc.Props.C01.IdsDistinct; decide⟩, by unfold Pbc.Props.C01.IdsDistinct; decide⟩
+example : FlatSchema exFlat := by
+  intro t
+  match t with
+  | 0 => exact ⟨by decide, by decide, by decide, by unfold Pbc.Props.C01.IdsDistinct; decide⟩
+  | 1 => exact ⟨by decide, by decide, by decide, by unfold Pbc.Props.C01.IdsDistinct; decide⟩
+  | t + 2 =>
+    have h : (exFlat.msg (t + 2)).fields = [] := rfl
+    rw [h]
+    exact ⟨by simp, by simp, by simp, by unfold Pbc.Props.C01.IdsDistinct; simp⟩
 
 end Pbc.Props.C07
